@@ -107,14 +107,10 @@ def mootsOf (table : List (List Nat)) (k : Nat) : List Nat := (table[k]?).getD [
 
 /-! ### internal errors known to remain reachable from a script
 
-On the tree with fixes D05, D06, D07, D07b, D08, D64, D65, D66, D67 (acting.py part), D68, D69 applied.  `(finding, exception class,
-innermost function)`.  This table is the region predicate of the known findings of C14: a failing input is attributed
-to a finding only if its (class, function) is listed. -/
-def knownCrashSites : List (String × String × String) := [
-  -- D67: `Store.add` / `Store.addNode` report a share path that runs through an existing share, or that names an
-  --      existing node, with a bare ValueError (the Store's own contract, C18); the builder and the resolve code
-  --      call `create` at a dozen places without translating it
-  ("D67", "ValueError", "add"), ("D67", "ValueError", "addNode")]
+None on the tree with fixes D05, D06, D07, D07b, D08, D64, D65, D66, D67, D67c, D68, D69, D69b applied: the table is empty, so
+every internal error the search meets is a failing input.  `(finding, exception class, innermost function)`: a failing
+input is attributed to a known finding only if its (class, function) is listed here. -/
+def knownCrashSites : List (String × String × String) := []
 
 def crashFindings (cls fn : String) : List String :=
   (knownCrashSites.filter (fun e => e.2.1 == cls && e.2.2 == fn)).map (·.1)
